@@ -33,6 +33,7 @@ type Shape struct {
 	Nested    bool   `json:"nested"`
 	Algs      string `json:"algs"`
 	Ber       string `json:"ber"`
+	Payload   string `json:"payload"`
 }
 
 func derLen(n int) []byte {
